@@ -52,6 +52,17 @@ CLAIMED = {
             "the real sampler equals a reference; the node's own assembly passes add_block at and next to a retarget boundary.",
             "Stubs as C01 plus a recorder for calculate_new_target at the call site (the kernel is decided separately) and LRO ids for assembly; "
             "one rule broken at a time; stated height assumed above the checkpoint horizon.", "DESIGN.md 4/C05"),
+    "C18": ("CrossHair symbolic execution of validate_block_in_coinstate per checkpointed height (symbolic 32-byte id on an otherwise valid candidate) + concrete anchor with the real scrypt",
+            "Solver verdict over every 32-byte id at each checkpointed height (12 heights quick, all thorough): accepted iff id == checkpoint, "
+            "with the candidate otherwise fully valid so that a gate comparison off by one is refuted; a forged spend one above the real horizon "
+            "is rejected. The recorded real blocks are a concrete anchor (real hash functions, also with an unvalidated fork as head).",
+            "Gate part: stubs as C01. Anchor part is not a solver verdict (no quantifier) and is marked as such in the evidence.", "DESIGN.md 4/C18"),
+    "C19": ("CrossHair symbolic execution of the peer-book handlers on a node shell + z3 encoding of is_time_to_connect generated from its source",
+            "One event from any peer-book state over 3 addresses satisfying the disjointness invariant keeps it (inductive step); back-off rule "
+            "proved for every failure count and clock by z3 (two solvers) and exercised through attempt/fail/step with symbolic clocks; "
+            "self-connection never re-dialled for any clock; write_peers atomic under a crash before any file operation, <= limit rows, newest first.",
+            "Sockets/selector replaced by a recording shell; failure count concrete where the code formats it into a log line; crash analysis with "
+            "PEERS_JSON_MAX_LEN=5 (code is parametric), the real limit 100 without crash.", "DESIGN.md 4/C19"),
 }
 
 NOT_YET = "not claimed yet in this revision of /verif: the check is still being built (see DESIGN.md section 4 for the planned decision procedure)"
